@@ -13,6 +13,7 @@ ap = argparse.ArgumentParser()
 ap.add_argument("--shards", type=int, default=16)
 ap.add_argument("--runs", type=int, default=360)
 ap.add_argument("--seed", type=int, default=0)
+ap.add_argument("--sweeps", type=int, default=0, help="crash-point sweeps per shard instead of random runs")
 ap.add_argument("only", nargs="*")
 a = ap.parse_args()
 rows = []
@@ -31,8 +32,13 @@ for mid in sorted(os.listdir(os.path.join(ROOT, "seeded"))):
             rows.append((mid, "patch does not apply", r.stderr.strip()[:100]))
             continue
         t = time.time()
-        res = check.mini_search(os.path.join(wt, "src"), a.seed, a.shards, a.runs)
-        rows.append((mid, res["runs"], res["diverging_runs"], res["diverge"], f"{time.time()-t:.0f}s", res["fatal"][:1]))
+        if a.sweeps:
+            res = check.mini_sweeps(os.path.join(wt, "src"), a.seed, a.shards, a.sweeps)
+            rows.append((mid, f"sweeps={res['sweeps']} positions={res['positions']}", res["diverging_positions"], res["diverge"],
+                         f"{time.time()-t:.0f}s", res["fatal"][:1]))
+        else:
+            res = check.mini_search(os.path.join(wt, "src"), a.seed, a.shards, a.runs)
+            rows.append((mid, res["runs"], res["diverging_runs"], res["diverge"], f"{time.time()-t:.0f}s", res["fatal"][:1]))
         print(rows[-1], flush=True)
     finally:
         subprocess.run(["git", "-C", "/repo", "worktree", "remove", "--force", wt])
